@@ -80,7 +80,7 @@ PROPS = {
     },
     "C17": {
         "lean_modules": ["C17"],
-        "pre_cmds": ["cd tools/gox && go run . -repo /repo -out /verif/lean/TensorModel/Generated"],
+        "pre_cmds": ["cd tools/gox && go run . -repo /repo -out ../../lean/TensorModel/Generated"],
         "rule": "X: every FuncDecl of internal/execution/generic_*.go (2 808 kernels) and every case arm of the eng_*.go dispatchers (103 methods, 1 208 arms) is regenerated into Lean tables on every run and proved to be the instance, for its own element type, of the type-generic template of its family (decide +kernel per chunk); H: the arithmetic, comparison, unary / Apply and reduction matrices (every operation x every element type x kernel variants vv / vs / sv / incr / iter / iter-incr / same / recv reached through layouts and option modes), results compared with Go's own operators",
         "trusted_extra": ["tools/gox (go/ast -> MiniGo tables: type abstraction, alpha-renaming) and the meaning of MiniGo constructs; operator tokens are names, evaluated by the Go compiler in the harness"],
     },
